@@ -282,7 +282,15 @@ def run_multi(case, ctx):
     D._OBS.clear()
     try:
         with np.errstate(all='ignore'):
-            val, info = getattr(nd, cls)(rec, **kw)(x.copy())
+            if case['seed'] % 4 == 0:
+                kw2 = dict(kw)
+                kw2.pop('full_output')
+                obj = getattr(nd, cls)(rec, **kw2)
+                obj.full_output = True            # switched on after construction
+                ctx.count('full_output_set_after_construction')
+            else:
+                obj = getattr(nd, cls)(rec, **kw)
+            val, info = obj(x.copy())
     except Exception as exc:
         ctx.count('multi_raised:%s(decided by C03/C04/C11)' % type(exc).__name__)
         return
